@@ -1,12 +1,19 @@
 package main
 
-// Oracle `c19race` (C19, thorough tier, SEARCH ONLY, report-only): builds this harness with the race
-// detector and runs the queue histories, the teardown scenarios and the snapshot-race scenario under
-// it. Every distinct `WARNING: DATA RACE` (by the first gluon frames of the two accesses) is listed in
-// the result's stats/samples. It never flags: data-race freedom of fields that no lock guards is the
-// part of C19 that is not decided here (DESIGN.md section 11, finding #13b).
+// Oracle `c19race` (C19, thorough tier, SEARCH ONLY): builds this harness with the race detector and
+// runs the queue histories, the teardown scenarios and the snapshot-race scenario under it. Every
+// distinct `WARNING: DATA RACE` (by the first gluon frames of the two accesses) is listed in the
+// result's stats/samples and reported:
+//
+//	c19race #13b ...       one access is snapMsgList.has reached from user.removeState (another session's
+//	                       goroutine reads a State's snapshot: other.HasMessage) - stable label, known finding
+//	c19race data-race ...  any other race with a gluon frame
+//
+// Data-race freedom of fields that no lock guards is the part of C19 that no theorem decides
+// (DESIGN.md section 11); the race detector has no false positives, but finding a race is luck.
 //
 //	vh oracle c19race -seed S -out result.json -replaydir DIR [-hist N] [-teardown N] [-snaprace N]
+//	vh oracle c19race -replay FILE       (re-runs the snapshot-race scenario under the race build)
 
 import (
 	"encoding/json"
@@ -19,7 +26,8 @@ import (
 	"strings"
 )
 
-func raceSignatures(log string) map[string]int {
+// raceSignatures: signature -> count; is13b[signature] if the block shows removeState reading a snapshot.
+func raceSignatures(log string, is13b map[string]bool, first map[string]string) map[string]int {
 	sigs := map[string]int{}
 	for _, blk := range strings.Split(log, "WARNING: DATA RACE")[1:] {
 		if i := strings.Index(blk, "=================="); i >= 0 {
@@ -52,7 +60,14 @@ func raceSignatures(log string) map[string]int {
 			}
 			parts = append(parts, kind+" "+frame)
 		}
-		sigs[strings.Join(parts, " | ")]++
+		sig := strings.Join(parts, " | ")
+		sigs[sig]++
+		if strings.Contains(blk, "internal/state.(*snapMsgList).has") && strings.Contains(blk, "(*user).removeState") {
+			is13b[sig] = true
+		}
+		if _, ok := first[sig]; !ok {
+			first[sig] = blk
+		}
 	}
 	return sigs
 }
@@ -61,8 +76,8 @@ func runOracleRace(args []string) int {
 	fs := flag.NewFlagSet("c19race", flag.ExitOnError)
 	seed := fs.Uint64("seed", 1, "seed")
 	outPath := fs.String("out", "", "result json")
-	_ = fs.String("replaydir", "replay", "unused")
-	_ = fs.String("replay", "", "unused")
+	replayDir := fs.String("replaydir", "replay", "where replay files go")
+	replay := fs.String("replay", "", "replay file")
 	hist := fs.Int("hist", 3000, "queue histories")
 	td := fs.Int("teardown", 30, "teardown scenarios")
 	snap := fs.Int("snaprace", 6, "rounds of the snapshot-race scenario")
@@ -78,7 +93,17 @@ func runOracleRace(args []string) int {
 		}
 		return 0
 	}
-	if *skip {
+	if *replay != "" {
+		*hist, *td, *snap = 0, 0, 15
+		if data, err := os.ReadFile(*replay); err == nil {
+			for _, w := range strings.Fields(string(data)) {
+				if k, v, ok := strings.Cut(w, "="); ok && k == "rounds" {
+					fmt.Sscan(v, snap)
+				}
+			}
+		}
+	}
+	if *skip && *replay == "" {
 		res.Stats["skipped-in-quick-tier"]++
 		return write()
 	}
@@ -106,6 +131,11 @@ func runOracleRace(args []string) int {
 		{"oracle", "c19teardown", "-seed", fmt.Sprint(*seed), "-n", fmt.Sprint(*td), "-snaprace", fmt.Sprint(*snap), "-nohang", "-replaydir", tmp, "-out", filepath.Join(tmp, "t.json")},
 	}
 	all := map[string]int{}
+	is13b := map[string]bool{}
+	first := map[string]string{}
+	if *hist == 0 {
+		runs = runs[1:]
+	}
 	for _, r := range runs {
 		cmd := exec.Command(raceBin, r...)
 		cmd.Env = append(os.Environ(), "GORACE=halt_on_error=0")
@@ -114,7 +144,7 @@ func runOracleRace(args []string) int {
 		if err != nil {
 			res.Stats["run."+r[1]+".exit-nonzero"]++ // the race runtime exits 66 when it reported something
 		}
-		for k, v := range raceSignatures(string(out)) {
+		for k, v := range raceSignatures(string(out), is13b, first) {
 			all[k] += v
 		}
 		for _, f := range []string{"q.json", "t.json"} {
@@ -133,9 +163,25 @@ func runOracleRace(args []string) int {
 	}
 	sort.Strings(keys)
 	res.Stats["distinct-data-races"] = len(keys)
-	for _, k := range keys {
+	reported13b := false
+	for i, k := range keys {
 		res.Stats["race: "+k] = all[k]
-		res.Samples = append(res.Samples, map[string]any{"oracle": "c19race", "report_only": true, "data_race": k, "reports": all[k]})
+		res.Samples = append(res.Samples, map[string]any{"oracle": "c19race", "data_race": k, "reports": all[k], "is_13b": is13b[k]})
+		if !strings.Contains(k, "/") && !strings.Contains(k, ".") {
+			continue // no gluon frame on either side: a race inside the harness itself, listed only
+		}
+		text := fmt.Sprintf("oracle c19race\n# go build -race; scenario: sessions A and B select the same mailbox, the connector deletes messages, B logs out while A issues NOOP/FETCH/CHECK\n# race detector report (first of %d):\n#%s\n# replay: ./check C19 --tier thorough --replay <this file>\nsnaprace rounds=%d\n", all[k], strings.ReplaceAll(strings.TrimRight(first[k], "\n"), "\n", "\n#"), *snap)
+		if is13b[k] {
+			if reported13b {
+				continue
+			}
+			reported13b = true
+			res.Violations = append(res.Violations, oracleViolation{
+				Desc:   "c19race #13b: data race on a State's snapshot: user.removeState of another session reads it (other.HasMessage -> snapMsgList.has) while the owning session's goroutine changes the same map (concurrent map read and map write can kill the process): " + k,
+				Replay: writeReplay(*replayDir, "C19-c19race-13b.txt", text)})
+			continue
+		}
+		res.Violations = append(res.Violations, oracleViolation{Desc: "c19race data-race: " + k, Replay: writeReplay(*replayDir, fmt.Sprintf("C19-c19race-%d.txt", i), text)})
 	}
 	res.DistinctNontrivial = res.Evaluations
 	return write()
